@@ -4,6 +4,8 @@ import (
 	"fmt"
 	"net"
 	"net/http"
+	"sort"
+	"sync"
 	"time"
 
 	"cosmossdk.io/log"
@@ -15,6 +17,7 @@ import (
 	"github.com/cosmos/cosmos-sdk/client"
 	"github.com/ethereum/go-ethereum/common"
 	ethtypes "github.com/ethereum/go-ethereum/core/types"
+	"github.com/ethereum/go-ethereum/rpc"
 	"github.com/gorilla/websocket"
 
 	"github.com/EscanBE/evermint/v12/rpc/namespaces/ethereum/eth/filters"
@@ -49,6 +52,35 @@ type Rig struct {
 	API *filters.PublicFilterAPI
 	srv *http.Server
 	h   int64
+	// filter ids the clients created (subscription number -> id): clients may act on each other's filters
+	idMu sync.Mutex
+	ids  map[int]rpc.ID
+}
+
+// ShareID publishes a filter id; OtherID picks a filter id another client created (ok=false: none).
+func (r *Rig) ShareID(sub int, id rpc.ID) {
+	r.idMu.Lock()
+	if r.ids == nil {
+		r.ids = map[int]rpc.ID{}
+	}
+	r.ids[sub] = id
+	r.idMu.Unlock()
+}
+
+func (r *Rig) OtherID(own int, pick int) (rpc.ID, bool) {
+	r.idMu.Lock()
+	defer r.idMu.Unlock()
+	var subs []int
+	for s := range r.ids {
+		if s != own {
+			subs = append(subs, s)
+		}
+	}
+	if len(subs) == 0 {
+		return "", false
+	}
+	sort.Ints(subs)
+	return r.ids[subs[pick%len(subs)]], true
 }
 
 // fake backend of the filter API: only the filter cap matters for the filter life-cycle.
